@@ -1403,3 +1403,18 @@ def memo_obligation(ctx, anchor_fi, what):
            {'memoised_functions_in_package': n_memo,
             'memoised_readers': [f'{fi.short} (@{dn}) reads {rd}' for fi, dn, rd, _ in bad]},
            node=(bad[0][3] if bad else anchor_fi.node), construct='memoised file reader')
+
+
+def header_rendered_afresh(ctx, why=''):
+    """the header of every block is rendered from the dictionary it is given: `_make_header` keeps nothing on the backend from
+    one call to the next (no attribute of self is stored, none it stored earlier is read back) -- cards rendered once and
+    re-used would survive into the next block / the next recording with the first one's values"""
+    mk = ctx.func(B + '._make_header')
+    r, I = ctx.run(mk)
+    st = [e for e in I.events if e.kind == 'store' and e.data.get('target') in ('attr', 'sub') and e.owner == mk.short
+          and (e.data['base'].key == sym('self').key or
+               (e.data['base'].single_atom() is not None and e.data['base'].single_atom().kind == 'attr'
+                and e.data['base'].single_atom().args[0].key == sym('self').key))]
+    ctx.ob('EFFECTS', '_make_header renders every header from the dictionary it is given and keeps no rendered state on the backend'
+           + why, mk, not st, {'stores_on_self': [e.text()[:80] for e in st]}, node=(st[0].node if st else mk.node),
+           construct='_make_header state on self')
